@@ -75,7 +75,7 @@ Definition render_field (F : vfields) (sym w : Z) : text :=
   | 71 (* G *) => match over 5 4 with 1 | 2 | 3 => if vf_bc F then S_[66;67] else S_[65;68]
                                      | 5 => if vf_bc F then S_[66] else S_[65]
                                      | _ => if vf_bc F then S_[66;101;102;111;114;101;32;67;104;114;105;115;116] else S_[65;110;110;111;32;68;111;109;105;110;105] end
-  | 121 (* y *) => if w =? 2 then (if Z.abs (vf_year F) <? 100 then pad_signed (vf_year F) 2 else pad (Z.abs (vf_year F) mod 100) 2)
+  | 121 (* y *) => if w =? 2 then (if vf_year F <? 0 then [45] else []) ++ pad (Z.abs (vf_year F) mod 100) 2   (* two-digit year: sign, last two digits *)
                    else pad_signed (vf_year F) w
   | 113 (* q *) => let q := (vf_month F - 1) / 3 + 1 in
                    match over 5 1 with 1 => pad q 1 | 2 => pad q 2 | 3 => 81 :: dec q | 4 => ordinal q ++ S_[32;113;117;97;114;116;101;114] | _ => pad q 1 end
